@@ -1,4 +1,5 @@
-(* C35 — stored names read back exactly as they were accepted.
+(* C35 — stored names read back exactly as they were accepted (code after fix 71aae69:
+   fixed_str_to_bytes rejects bytes.len() >= MAX_LEN and names containing NUL).
    A Rust `&str` is a byte list with [utf8_valid s = true]; [m] is the field width MAX_LEN. *)
 From stdpp Require Import gmap.
 From GV Require lib.Base C35.Model C35.Proofs C34.Model C18.Model C18.Proofs.
@@ -6,81 +7,89 @@ Import GV.lib.Base(res, Ok, Err, rbind, of_opt).
 Import GV.C35.Model GV.C35.Proofs GV.C18.Model GV.C18.Proofs.
 Open Scope Z_scope.
 
-(* THE PROPERTY AS AN EQUIVALENCE: a name is accepted AND reads back unchanged exactly when it
-   is strictly shorter than the field and contains no NUL.  The code accepts more
-   (blen s <= m, NUL allowed): see the two classes below. *)
+(* THE PROPERTY: every accepted name reads back unchanged — all widths, all UTF-8 strings *)
+Theorem c35_accepted_roundtrip : forall m s b, utf8_valid s = true ->
+  str_to_bytes m s = Ok b -> bytes_to_str b = Ok s.
+Proof. exact accepted_roundtrip. Qed.
+
+(* creation accepts exactly the readable names (strictly shorter than the field, no NUL) ... *)
+Theorem c35_accepted_iff_readable : forall m s, (exists b, str_to_bytes m s = Ok b) <-> readable m s = true.
+Proof. exact accepted_iff_readable. Qed.
 Theorem c35_roundtrip_iff : forall m s, utf8_valid s = true ->
   (exists b, str_to_bytes m s = Ok b /\ bytes_to_str b = Ok s) <-> (blen s < m /\ has_nul s = false).
 Proof. exact roundtrip_iff. Qed.
 
-(* what creation accepts / refuses *)
+(* ... with these stored bytes and these errors *)
 Theorem c35_accepts : forall m s b,
-  str_to_bytes m s = Ok b <-> (blen s <= m /\ b = s ++ repeat 0 (Z.to_nat (m - blen s))).
+  str_to_bytes m s = Ok b <-> (blen s < m /\ has_nul s = false /\ b = s ++ repeat 0 (Z.to_nat (m - blen s))).
 Proof. exact str_to_bytes_ok. Qed.
-Theorem c35_refuses : forall m s, (exists e, str_to_bytes m s = Err e) <-> m < blen s.
+Theorem c35_refuses : forall m s e,
+  str_to_bytes m s = Err e <->
+  ((m <= blen s /\ e = E_LEN) \/ (blen s < m /\ has_nul s = true /\ e = E_FORMAT)).
 Proof. exact str_to_bytes_err. Qed.
-Theorem c35_readable_accepted : forall m s, readable m s = true -> exists b, str_to_bytes m s = Ok b.
-Proof. exact readable_accepted. Qed.
 
-(* outside the two known classes the property holds literally *)
-Theorem c35_accepted_outside_classes_roundtrip : forall m s b, utf8_valid s = true ->
-  str_to_bytes m s = Ok b -> blen s <> m -> has_nul s = false -> bytes_to_str b = Ok s.
-Proof. exact accepted_outside_classes_roundtrip. Qed.
+(* NAMES THAT CANNOT BE READ BACK ARE REJECTED AT CREATION: the two classes the original code
+   accepted (found by this check, repaired by 71aae69) *)
+Theorem c35_exact_fill_rejected : forall m s, blen s = m -> str_to_bytes m s = Err E_LEN.
+Proof. exact exact_fill_rejected. Qed.
+Theorem c35_nul_rejected : forall m s, has_nul s = true -> exists e, str_to_bytes m s = Err e.
+Proof. exact nul_rejected. Qed.
+Theorem c35_former_witnesses_rejected :
+  str_to_bytes 32 name_a32 = Err E_LEN /\ str_to_bytes 32 name_nul = Err E_FORMAT.
+Proof. exact former_witnesses_rejected. Qed.
+(* why they had to be rejected: a completely filled field has no terminator *)
+Theorem c35_reader_needs_terminator : forall s, has_nul s = false -> bytes_to_str s = Err E_FORMAT.
+Proof. exact reader_exact_fill. Qed.
 
-(* class 1 (ExactFill): accepted, stored without terminator, unreadable *)
-Theorem c35_exact_fill_unreadable : forall m s, blen s = m -> has_nul s = false ->
-  str_to_bytes m s = Ok s /\ bytes_to_str s = Err E_FORMAT.
-Proof. exact readback_exact_fill. Qed.
-
-(* class 2 (InteriorNul): accepted, reads back as the part before the first NUL (a different,
-   strictly shorter name) *)
-Theorem c35_interior_nul_truncated : forall m s b, utf8_valid s = true -> has_nul s = true ->
-  str_to_bytes m s = Ok b ->
-  exists n, position_nul s = Some n /\ (n < length s)%nat /\ bytes_to_str b = Ok (firstn n s).
-Proof. exact readback_interior_nul_exact. Qed.
-
-(* concrete witnesses on the 32-byte fields: "a" x 32 and "ab\0cd" *)
-Theorem c35_accepted_unreadable_refuted :
-  (exists b, utf8_valid name_a32 = true /\ str_to_bytes 32 name_a32 = Ok b /\ bytes_to_str b = Err E_FORMAT) /\
-  (exists b, utf8_valid name_nul = true /\ str_to_bytes 32 name_nul = Ok b /\ bytes_to_str b = Ok [97; 98]).
-Proof. exact accepted_unreadable_refuted. Qed.
-
-(* cutting well-formed UTF-8 at a NUL byte leaves well-formed UTF-8 (so the Utf8 error of
-   bytes_to_fixed_str cannot occur for names that came in as `&str`) *)
+(* cutting well-formed UTF-8 at a NUL byte leaves well-formed UTF-8 *)
 Theorem c35_utf8_prefix_nul : forall p q, utf8_valid (p ++ 0 :: q) = true -> utf8_valid p = true.
 Proof. intros p q. exact (utf8_prefix_nul (length p) p q (le_n _)). Qed.
 
-(* ---- roles: an accepted role name can be used, granted and disabled iff it is readable ---- *)
-Lemma list_eqb_eq a : forall b, list_eqb a b = true <-> a = b.
+(* ---- roles: an accepted role name can be used, granted and disabled ---- *)
+Lemma list_eqb_refl a : list_eqb a a = true.
+Proof. induction a as [|x r IH]; cbn; [done|]. by rewrite Z.eqb_refl, IH. Qed.
+
+(* the name stored by RoleMetadata::new passes RoleStore's `metadata.name()? == role` check *)
+Theorem c35_accepted_role_usable : forall n nb, utf8_valid n = true ->
+  str_to_bytes NAME_LEN n = Ok nb -> name_ok nb n = true.
 Proof.
-  induction a as [|x r IH]; intros [|y s]; cbn; split; intros H; try done.
-  - apply andb_prop in H as [H1 H2]. apply Z.eqb_eq in H1. apply IH in H2. by subst.
-  - inversion H; subst. rewrite Z.eqb_refl. by apply IH.
+  intros n nb U E. unfold name_ok. rewrite (accepted_roundtrip NAME_LEN n nb U E). apply list_eqb_refl.
 Qed.
 
-Theorem c35_role_name_usable_iff : forall n nb, utf8_valid n = true ->
-  str_to_bytes NAME_LEN n = Ok nb -> (name_ok nb n = true <-> readable NAME_LEN n = true).
-Proof.
-  intros n nb U E. unfold name_ok, readable. split.
-  - destruct (bytes_to_str nb) as [x|] eqn:R; [|done]. intros H. apply list_eqb_eq in H. subst x.
-    destruct (proj1 (roundtrip_iff NAME_LEN n U)) as [L N]; [by exists nb|].
-    rewrite N. apply andb_true_intro. split; [by apply Z.ltb_lt|done].
-  - intros H. apply andb_prop in H as [L N]. apply Z.ltb_lt in L. apply negb_true_iff in N.
-    destruct (proj2 (roundtrip_iff NAME_LEN n U)) as (b & E' & R); [done|].
-    rewrite E' in E. inversion E; subst. rewrite R. by apply list_eqb_eq.
-Qed.
-
-(* a role created under an unreadable name is stuck: enable / disable / grant / revoke on it
-   fail with InvalidArgument and has_role never succeeds (abstract machine of C18, to which the
-   real RoleStore is proved and observed equivalent) *)
-Theorem c35_unreadable_role_stuck : forall A k n nb en a, ar A !! k = Some (nb, en) ->
-  name_ok nb n = false ->
+(* hence (abstract machine of C18, to which the real RoleStore is proved and observed equivalent)
+   a freshly created role can be granted, is held, and can be disabled and re-enabled *)
+Theorem c35_created_role_works : forall A k n nb a, utf8_valid n = true ->
+  ar A !! k = None -> str_to_bytes NAME_LEN n = Ok nb ->
+  Z.of_nat (size (ar A)) < MAX_ROLES -> (a, k) ∉ ag A ->
+  (a ∈ amembers A \/ Z.of_nat (size (amembers A)) < MAX_MEMBERS) ->
   let r := mkrole k n in
-  a_enable A r = (A, Err EC_ARG) /\ a_disable A r = (A, Err EC_ARG) /\
-  a_grant A a r = (A, Err EC_ARG) /\ a_revoke A a r = (A, Err EC_ARG) /\
-  (a_has A a r = Err EC_ARG \/ a_has A a r = Err EC_DENIED).
+  let A1 := fst (a_enable A r) in
+  let A2 := fst (a_grant A1 a r) in
+  snd (a_enable A r) = Ok tt /\ snd (a_grant A1 a r) = Ok tt /\ a_has A2 a r = Ok true /\
+  snd (a_disable A2 r) = Ok tt.
 Proof.
-  intros A k n nb en a E N r.
-  unfold a_enable, a_disable, a_grant, a_revoke, a_has, a_status. cbn [r_key r_name r].
-  rewrite E, N. repeat split; try done. case_decide; [by left|by right].
+  intros A k n nb a U E N F G M r A1 A2.
+  pose proof (c35_accepted_role_usable n nb U N) as NO.
+  assert (E1 : a_enable A r = okA (mkA (<[k := (nb, true)]> (ar A)) (ag A))).
+  { unfold a_enable. cbn [r_key r_name r]. rewrite E, N. by rewrite decide_False by lia. }
+  assert (HA1 : A1 = mkA (<[k := (nb, true)]> (ar A)) (ag A)) by (unfold A1; by rewrite E1).
+  assert (S1 : a_status A1 r = Ok (Some true)).
+  { unfold a_status. rewrite HA1. cbn [ar r_key r_name r]. rewrite lookup_insert. by rewrite NO. }
+  assert (E2 : a_grant A1 a r = okA (mkA (ar A1) ({[(a, k)]} ∪ ag A1))).
+  { unfold a_grant. rewrite S1. cbn [r_key r].
+    assert (G1 : (a, k) ∉ ag A1) by (rewrite HA1; done).
+    rewrite decide_False by done.
+    assert (AM : amembers A1 = amembers A) by (rewrite HA1; done).
+    case_decide as D; [done|]. rewrite AM in *.
+    destruct M as [M|M]; [done|]. by rewrite decide_False by lia. }
+  assert (HA2 : A2 = mkA (ar A1) ({[(a, k)]} ∪ ag A1)) by (unfold A2; by rewrite E2).
+  assert (S2 : a_status A2 r = Ok (Some true)).
+  { unfold a_status in *. rewrite HA2. cbn [ar]. exact S1. }
+  assert (G2 : (a, k) ∈ ag A2) by (rewrite HA2; cbn [ag]; set_solver).
+  split; [by rewrite E1|]. split; [by rewrite E2|]. split.
+  - unfold a_has. rewrite decide_True by (unfold amembers; apply elem_of_map; by exists (a, k)). rewrite S2.
+    cbn [r_key r]. f_equal. by apply bool_decide_eq_true.
+  - unfold a_disable. unfold a_status in S2. cbn [r_key r_name r] in *.
+    destruct (ar A2 !! k) as [[nm en]|]; [|done].
+    destruct (name_ok nm n); [|done]. destruct en; [done|]. by inversion S2.
 Qed.
